@@ -42,12 +42,12 @@ ASSUMPTIONS = [
 
 def arms(tier):
     if tier == "thorough":
-        return [("mixed", 300_000), ("split", 200_000)]
-    return [("mixed", 9_000), ("split", 9_000)]
+        return [("mixed", 2_500_000), ("split", 2_500_000)]
+    return [("mixed", 100_000), ("split", 100_000)]
 
 
 def hist_slice(tier):
-    return 1
+    return 4 if tier == "thorough" else 1
 
 
 def f32(x):
@@ -70,7 +70,17 @@ def gen_case(rng, arm, tier, k=0):
             X[i][0] = float(i) + 0.5
     Y = list(range(K)) + [rng.randrange(K) for _ in range(n - K)]
     rng.shuffle(Y)
-    ids = list(range(n)) if rng.random() < 0.4 else rng.sample(range(0, 500), n)
+    r = rng.random()
+    if r < 0.35:
+        ids = list(range(n))
+    elif r < 0.65:
+        ids = rng.sample(range(0, 500), n)
+    elif r < 0.85:
+        base = rng.choice((2**24 - 3, 2**24 + 1, 20_000_000, 2**30 + 7))  # beyond float32's exact integers
+        ids = [base + 1 + 2 * i + rng.randint(0, 1) for i in range(n)]
+    else:
+        ids = sorted(rng.sample(range(0, 2**31 - 1), n))
+        ids[-1] = 2**31 - 1
     case = {"n": n, "d": d, "K": K, "X": X, "Y": Y, "ids": ids, "style": style}
     ops = []
     if arm == "mixed":
@@ -269,6 +279,8 @@ def run_case(case):
                     bump(out.probes, "single_sample_file_loaded")
                 if ids != list(range(n)):
                     bump(out.probes, "ids_differ_from_row_numbers")
+                if max(ids) > 2**24:
+                    bump(out.probes, "ids_beyond_float32_exact_range")
                 if K >= 3:
                     bump(out.probes, "three_or_more_classes")
                 log.add(kop, fmt)
